@@ -85,7 +85,7 @@ def gates(m, tier):
     need = ['decode.py:short_str', 'decode.py:field_table',
             'decode.py:embedded_value', 'decode.py:timestamp',
             'frame.py:_unmarshal_method_frame', 'frame.py:unmarshal']
-    for s in need:
+    for s in common.anchored(need):
         if s + ':' not in sites:
             out.append('no exception was born in %s' % s)
     if m.counters.get('recursion_error_set_aside', 0):
